@@ -286,6 +286,48 @@ theorem torn_is_not_noTorn (s : State) (w : Nat) (ht : Torn s w) : ¬ NoTornMess
   rw [torn_writer_dead ht] at this
   cases this
 
+/-! ## 7. The tear-down is not atomic: the client between its steps; the error message -/
+
+/-- After the broken flag is set `submit` raises the stored error and accepts nothing. -/
+theorem submit_after_flag_raises (s : State) (arg : Nat) (b : Exc) (h : s.flags.broken = some b) :
+    submit s arg = (s, .error b) :=
+  submit_on_broken s arg b h
+
+/-- NO ORPHAN FUTURE. `terminate_broken` is not atomic: the client thread may call `submit` between any two of
+its steps (`a1`: after `flag_as_broken`, `a2`: after the pending items were failed and cleared, `a3`: after
+`kill_workers`). BECAUSE THE FLAG IS SET FIRST every one of those submits is rejected (it raises the error, no future
+is created), so the outcome is that of the uninterrupted tear-down and, in a reachable state, every future that
+`submit` ever accepted is resolved: it was in `pending_work_items` when they were failed. The theorem relies on
+exactly this order — flag, then fail-and-clear; see `flag_after_clear_orphans_counterexample`. -/
+theorem no_orphan_future (fn : Nat → Nat) (s : State) (hreach : Reachable fn s) (bpe : Exc) (a1 a2 a3 : List Nat) :
+    terminateBrokenInterleaved s bpe a1 a2 a3 = terminateBroken s bpe ∧
+    Resolved (terminateBrokenInterleaved s bpe a1 a2 a3) ∧
+    (∀ a, submit (flagAsBroken s bpe) a = (flagAsBroken s bpe, .error bpe)) := by
+  rw [terminateBrokenInterleaved_eq]
+  exact ⟨rfl, (terminateBroken_resolved (reachable_inv hreach) bpe).2, fun a => submit_on_broken _ a bpe rfl⟩
+
+/-- The executor of `idlePool` with worker 101 dead: idle, manager asleep on the sentinel. -/
+def idleDeadState : State := ((poolRun id (idlePool, []) [.exec 0 (.kill 101)]).1.execs[0]!)
+
+/-- COUNTEREXAMPLE for the other order (pending items failed and cleared FIRST, flag set afterwards): a `submit`
+landing in between is accepted — the executor is neither broken nor shut down yet — and its future stays `pending`
+for ever: the manager thread has returned (`mgr = exited`), the work id sits in `pending_work_items` of a dead
+executor. This is the hang the order of `terminate_broken` exists to prevent. -/
+theorem flag_after_clear_orphans_counterexample :
+    let s' := terminateBrokenFlagLast idleDeadState .terminatedWorker [9]
+    s'.mgr = .exited ∧ s'.flags.broken = some .terminatedWorker ∧ s'.pending_work_items = [1] ∧
+    s'.futures.map (·.st) = [.result 3, .pending] := by
+  decide
+
+/-- Building the `TerminatedWorkerError` message never raises, whatever the exit codes of the workers and whatever
+signals have a name: `_get_exitcode_name` answers `"UNKNOWN"` for a signal number outside `signal.Signals`
+(real-time signals), the `ValueError` does not escape into the manager thread. -/
+theorem exitcode_message_never_raises (names : List (Nat × String)) :
+    (∀ e : Int, getExitcodeName names e =
+      .ok (if e < 0 then (names.lookup (-e).toNat).getD "UNKNOWN" else if e ≠ 255 then "EXIT" else "UNKNOWN")) ∧
+    (∀ es : List Int, ∃ msg, formatExitcodes names es = .ok msg) :=
+  ⟨getExitcodeName_ok names, formatExitcodes_ok names⟩
+
 /-! ## Non-vacuity: the hypotheses are met by non-trivial reachable states -/
 
 /-- Worker 100 killed holding its task while worker 101's result is buffered: reachable, manager running, a dead
@@ -308,5 +350,9 @@ example : (managerSteps 3 exState).mgr = .exited ∧
 example : Quiescent ((poolRun id (idlePool, []) [.exec 0 (.kill 101)]).1.execs[0]!) := by
   unfold Quiescent; decide
 example : (getReusableExecutor idlePool 2 5 true false).2 = (0, true) := by decide
+
+example : (getExitcodeName [(9, "SIGKILL"), (34, "SIGRTMIN")] (-35)).toOption = some "UNKNOWN" := by decide
+example : (formatExitcodes [(9, "SIGKILL")] [-9, -35, 3, 255]).toOption =
+    some "{SIGKILL(-9), UNKNOWN(-35), EXIT(3), UNKNOWN(255)}" := by decide
 
 end C10
